@@ -1,4 +1,5 @@
 import OdcGeo.Model.C01
+import OdcGeo.Model.C01Glue
 namespace OdcGeo.C01.Drv
 open OdcGeo OdcGeo.IO OdcGeo.C01
 
@@ -73,6 +74,73 @@ def fmtBBoxOut : Except Err (Out BBox) → String
 
 def pathStr : ConvPath → String
   | .same => "same" | .converted => "converted" | .pixelPlane => "pixel"
+
+
+/-! ### second part (Model/C01Glue) -/
+
+def parseCrsArg? (s : String) : Option CrsArg :=
+  if s = "omitted" then some .omitted
+  else if s = "unset" then some .unset
+  else if s = "err" then some (.given (.error (.other 1)))       -- pyproj CRSError
+  else if s = "assert" then some (.given (.error .assertion))    -- 'utm' without ctx
+  else match s.splitOn "=" with
+    | ["ok", t] => (parseTag? t).map (fun t => .given (.ok t))
+    | _ => none
+
+def parseGeomArg? (s : String) : Option GeomArg :=
+  if s = "S" then some .shapely
+  else if s = "DF" then some (.dict true)
+  else if s = "DP" then some (.dict false)
+  else if s = "O" then some .other
+  else match s.splitOn "=" with
+    | ["G", t] => (parseTag? t).map GeomArg.geometry
+    | _ => none
+
+def fmtTagRes : Except Err Tag → String
+  | .ok t => fmtTag t
+  | .error (.other _) => "ERR:CRSError"
+  | .error e => fmtErr e
+
+def ruleStr : TagRule → String
+  | .keep => "keep" | .fromArg => "arg" | .target => "target"
+
+def run2 (args : List String) : Option String :=
+  match args with
+  | ["unaryops"] => some (",".intercalate (unaryTable.map (fun (n, r) => s!"{n}|{ruleStr r}")))
+  | ["unary", name, self, arg] => do
+    let rule ← findUnary name
+    let self ← parseTag? self; let arg ← parseTag? arg
+    pure (fmtTag (unaryTag rule self arg))
+  | ["eqany", a, other] => do
+    let a ← parseTag? a
+    let a ← a
+    let o ← (if other = "X" then some none else (parseTag? other))
+    pure (fmtBool (crsEqAny a o))
+  | ["lonlatdispatch", crs, t4326] => do
+    let crs ← parseTag? crs
+    let t ← parseTag? t4326
+    let t ← t
+    pure (match lonlatDispatch crs t with | .raw => "raw" | .converted => "converted")
+  | ["geominit", t4326, arg, crs] => do
+    let t ← parseTag? t4326
+    let t ← t
+    let arg ← parseGeomArg? arg
+    let crs ← parseCrsArg? crs
+    pure (fmtTagRes (geomInit t arg crs))
+  | ["bboxinit", crs] => do
+    let crs ← parseCrsArg? crs
+    pure (fmtTagRes (bboxInit crs))
+  | ["transformtag", self, crs] => do
+    let self ← parseTag? self
+    let crs ← parseCrsArg? crs
+    pure (fmtTagRes (transformTag self crs))
+  | ["utm", txt, south, epsg] => do
+    let south ← parseBool? south
+    let epsg ← parseNat? epsg
+    match utmText txt with
+    | none => pure "notutm"
+    | some t => pure (toString (utmPick t south epsg))
+  | _ => none
 
 def run (args : List String) : Option String :=
   match args with
@@ -149,6 +217,6 @@ def run (args : List String) : Option String :=
   | ["eq", a, b, raw] => do
     let a ← parseTag? a; let b ← parseTag? b; let raw ← parseBool? raw
     pure (fmtBool (eqRun a b raw))
-  | _ => none
+  | other => run2 other
 
 end OdcGeo.C01.Drv
